@@ -23,7 +23,7 @@
    observed by the harness (both inputs before/after each call, and the model
    is compared against the inputs as they are AFTER the call). *)
 From Coq Require Import List ZArith Bool Arith Permutation.
-From NT Require Import Sx Rose Diff DiffProofs DiffMore CaseC11.
+From NT Require Import Sx Rose Diff DiffProofs DiffMore DiffSrc CaseC11.
 From NTGen Require Import Generated.
 Import ListNotations.
 
@@ -219,3 +219,35 @@ Print Assumptions C11_moves_complete.
 Theorem C11_hint_order_is_complete : forall hints f, incl (added_ids f) (eff_order hints f).
 Proof. exact eff_order_complete. Qed.
 Print Assumptions C11_hint_order_is_complete.
+
+Theorem C11_no_raise_decidable : forall hints ordered reduce t0 t1, no_raise_b t0 t1 = true ->
+  diff_tree_lit hints ordered reduce t0 t1 <> None.
+Proof. exact no_raise_b_sound. Qed.
+Print Assumptions C11_no_raise_decidable.
+Example ex_no_raise_domain : no_raise_b ex_t0 ex_t1 = true. Proof. reflexivity. Qed.
+
+(* ---- the property's own wording of the domain ------------------------------- *)
+(* default-id trees (data_id = hash(data)) over a shared alphabet on which ==
+   and data_id agree, no two siblings with equal data: all hypotheses used above *)
+Theorem C11_domain_default_ids : forall t0 t1,
+  sib_unique t0 -> sib_unique t1 ->
+  default_ids (pre_f t0 ++ pre_f t1) -> did_is_data (pre_f t0 ++ pre_f t1) ->
+  dom t0 t1 /\ hash_inj (pre_f t0 ++ pre_f t1).
+Proof. exact default_id_domain. Qed.
+Print Assumptions C11_domain_default_ids.
+
+(* ---- result nodes wrap source data; moved pairs have equal DATA ------------- *)
+Theorem C11_result_nodes_have_sources : forall order ordered t0 t1,
+  Forall (fun x => exists s, In s (pre_f t0 ++ pre_f t1) /\ key x = key s /\ rdid x = DInt (hkey s))
+         (pre_f (snd (diff_with order ordered false t0 t1))).
+Proof. exact result_nodes_have_sources. Qed.
+Print Assumptions C11_result_nodes_have_sources.
+
+Theorem C11_moved_pairs_same_data : forall order ordered t0 t1, hash_inj (pre_f t0 ++ pre_f t1) ->
+  let f := snd (diff_with order ordered false t0 t1) in
+  (forall x, In x (pre_f f) -> has_dc x MOVED_HERE = true ->
+     exists y, In y (pre_f f) /\ has_dc y MOVED_TO = true /\ key y = key x) /\
+  (forall y, In y (pre_f f) -> has_dc y MOVED_TO = true ->
+     exists x, In x (pre_f f) /\ has_dc x MOVED_HERE = true /\ key x = key y).
+Proof. exact moved_pairs_same_data. Qed.
+Print Assumptions C11_moved_pairs_same_data.
